@@ -7,13 +7,17 @@
    register contents, one pass of the section fragmentComposer generates leaves, at every processor
    output, the value the direct evaluation of the graph gives to the port numbered there, provided
    the processor inputs carry the values of their sources (graph inputs or the outputs of instances
-   on other processors).  So the direct evaluation is the state in which every processor of every
-   partition reproduces its own outputs; that the running machine reaches that state is what the
-   simulation part of the check observes.  Also proved: the register discipline that makes
+   on other processors), and more generally for every instance whose own inputs are right.  On top of
+   that: in the machine of Front/FragNet.v, where the processors of a partition take whole passes in
+   any order, reading the links as they are and publishing their outputs, any schedule that can be
+   cut into as many stretches as the graph has instances, each giving every processor a turn, ends
+   with the direct evaluation on the external outputs, from any initial links and registers; the
+   round-robin schedule is one.  The running machine interleaves at instruction granularity; that it
+   settles on the same values is what the simulation part of the check observes.  Also proved: the register discipline that makes
    collapsing harmless (temporaries are fresh and distinct, NextResource returns the lowest free
    register) and the shape of the evaluation. *)
 From Coq Require Import List NArith Bool Arith.
-From BM Require Import Isa.Sim Front.Frag Front.FragWf Proofs.FragProofs Proofs.FragPass.
+From BM Require Import Isa.Sim Front.Frag Front.FragWf Front.FragNet Proofs.FragProofs Proofs.FragPass Proofs.FragSchedule.
 Import ListNotations.
 
 Theorem temporaries_never_collide_with_fragment_registers : forall k used,
@@ -66,4 +70,29 @@ Example the_conditions_are_met :
   tmp_ports ex_g [0; 2] = [(0, 0)] /\ index_of2 (2, 0) (out_ports ex_g [0; 2]) = Some 1 /\
   eval 8 8 ex_g [5%N] = [13%N] /\
   snd (run_pass 8 (removelast (compose ex_g [0; 2])) (pass_inputs 8 8 ex_g [0; 2] [5%N]) 2 [9; 9; 9; 9; 9; 9; 9; 9]%N) = [6; 13]%N.
+Proof. vm_compute. repeat split; reflexivity. Qed.
+
+(* the machine of a partition, pass by pass *)
+Theorem any_fair_schedule_of_passes_ends_with_the_direct_evaluation :
+  forall rs nregs g parts xs, graph_ok g = true -> partition_ok g parts nregs = true -> ext_ok g = true ->
+  forall s m, covers parts s (length (insts g)) -> Forall (fun c => c < length parts) s ->
+  Forall (fun r => length r = nregs) (mregs m) ->
+  outputs_of g (mw (fold_left (step_cp rs nregs g parts (map (compose g) parts) xs) s m)) = eval rs nregs g xs.
+Proof. exact schedule_reaches_the_evaluation. Qed.
+Print Assumptions any_fair_schedule_of_passes_ends_with_the_direct_evaluation.
+
+Theorem every_partition_run_round_robin_gives_the_same_result :
+  forall rs nregs g parts xs m, graph_ok g = true -> partition_ok g parts nregs = true -> ext_ok g = true ->
+  Forall (fun r => length r = nregs) (mregs m) ->
+  outputs_of g (mw (run_sched rs nregs g parts (map (compose g) parts) xs (rounds (length parts) (length (insts g))) m)) = eval rs nregs g xs.
+Proof. intros. apply round_robin_reaches_the_evaluation; assumption. Qed.
+Print Assumptions every_partition_run_round_robin_gives_the_same_result.
+
+(* non-vacuity: three partitions of the example graph meet the conditions, among them one whose
+   processors depend on each other in both directions ({0,2} needs 1, {1} needs 0) *)
+Example three_partitions_of_one_graph :
+  ext_ok ex_g = true /\ partition_ok ex_g [[0; 1; 2]] 8 = true /\ partition_ok ex_g [[0]; [1]; [2]] 8 = true /\
+  partition_ok ex_g [[0; 2]; [1]] 8 = true /\
+  outputs_of ex_g (mw (run_sched 8 8 ex_g [[0; 2]; [1]] (map (compose ex_g) [[0; 2]; [1]]) [5%N] (rounds 2 3)
+                                 (mkM (wires0 ex_g) [[1; 2; 3; 4; 5; 6; 7; 8]; [8; 7; 6; 5; 4; 3; 2; 1]]%N))) = [13%N].
 Proof. vm_compute. repeat split; reflexivity. Qed.
